@@ -192,7 +192,7 @@ func genC11(r *core.Rand, run int) *MuxScenario {
 			case 0:
 				op = RegOp{Kind: "regsvc", Target: "local", Service: svcMessaging}
 			case 1:
-				op = RegOp{Kind: "regconn", Target: r.PickS("b1", "b2", "b3"), Fail: r.PickS("refl:0", "refl:1", "refl:2", "refl:3", "cancel", "refl:1c", "refl:2c", "refl:3c", "refl:0e", "refl:1e", "refl:2e", "refl:end", "refl:end")}
+				op = RegOp{Kind: "regconn", Target: r.PickS("b1", "b2", "b3"), Fail: r.PickS("refl:0", "refl:1", "refl:2", "refl:3", "cancel", "refl:1c", "refl:2c", "refl:3c", "refl:0e", "refl:1e", "refl:2e", "refl:end", "refl:end", "cancel-mid", "cancel-mid", "cancel-mid")}
 				if r.Chance(1, 2) {
 					op.Adv = [][]string{{tsvc}, {svcFiles}, {svcMessaging}, {tsvc, svcMessaging}}[r.Intn(4)]
 				}
@@ -310,13 +310,13 @@ func oracleRegistrySequential(prop string, mr *muxRun, res *RunResult) *Violatio
 		if !rr.Done {
 			return violationf(prop, "operation-never-returned", ctx, "operation %d of history [%s] did not return", k, hist)
 		}
-		mustFail := op.Fail != "" || op.Kind == "regconn" && dead[op.Target]
+		mustFail := op.Fail != "" && op.Fail != "cancel-mid" || op.Kind == "regconn" && dead[op.Target]
 		for _, s := range rr.AdvAt {
 			if s == svcSimBad && op.Kind == "regconn" {
 				mustFail = true // its HTTP rule binds a field that does not exist
 			}
 		}
-		mayFail := false
+		mayFail := op.Fail == "cancel-mid"
 		if op.SimBuild != 0 {
 			simOld[op.Target] = op.SimBuild == 2
 		}
